@@ -39,6 +39,13 @@ func (o *ndjson) emit(v interface{}) {
 	o.mu.Unlock()
 }
 
+// flush makes everything emitted so far durable (used by drivers whose real-code calls may kill the process)
+func (o *ndjson) flush() {
+	o.mu.Lock()
+	o.w.Flush()
+	o.mu.Unlock()
+}
+
 func (o *ndjson) close() error {
 	if err := o.w.Flush(); err != nil {
 		return err
